@@ -398,13 +398,13 @@ def oracle_notes(case):
             if r:
                 rests.add(k)
         notes.append(o_note(e, rests, t0, lat, defs))
-        return notes
-    tl, _ = o_timeline(prog[2], ({}, set()))
+        return notes, t0
+    tl, total = o_timeline(prog[2], ({}, set()))
     for st, e, rests in tl:
         if rests or e.get('type') == 'rest':
             continue
         notes.append(o_note(e, rests, t0 + st, lat, defs))
-    return notes
+    return notes, t0 + total
 
 
 def notes_of_msgs(msgs):
@@ -474,7 +474,7 @@ class Gen:
         if k == 'add_action':
             return ['s', r.choice(['addToHead', 'addToTail', 'addBefore', 'addAfter', 'h', 't'])] if r.random() < 0.8 \
                 else self.numv(str(r.randint(0, 4)))
-        if k in ('out', 'pan', 'foo', 'bar'):
+        if k in ('out', 'pan', 'foo', 'bar', 'gate'):
             return self.numv(self.dy(-1, 4, (1, 2, 4)))
         if k == 'scale':
             return ['sc'] + r.choice(SCALES)
@@ -493,7 +493,7 @@ class Gen:
         ks += [k for k in MODS if r.random() < 0.3]
         ks += r.sample(['amp', 'db', 'velocity'], r.choice([0, 1, 1, 2]))
         ks += [k for k in ('dur', 'stretch', 'legato', 'sustain', 'delta') if r.random() < 0.35]
-        ks += [k for k in ('group', 'add_action', 'out', 'pan', 'foo', 'bar', 'scale', 'send_gate', 'has_gate')
+        ks += [k for k in ('group', 'add_action', 'out', 'pan', 'foo', 'bar', 'gate', 'scale', 'send_gate', 'has_gate')
                if r.random() < 0.2]
         r.shuffle(ks)
         return ks
@@ -598,10 +598,33 @@ class Check(common.Check):
         'ppar_preserves_child_timelines', 'pdur_total', 'pdur_passes_prefix')]
     N_QUICK = 400
     N_THOROUGH = 8000
-    ASSUMPTIONS = []
+    ASSUMPTIONS = [
+        'NRT mode, tempo 1, one player per case; logical time and bundle stamping (time + latency) are '
+        'taken from the score main.process() renders (C05/C07 cover them)',
+        'numbers are exact rationals in the model; real floats are compared with relative tolerance 1e-9 '
+        '(legato 0.8 and the transcendental leaves midicps / cpsmidi / dbamp are not exact in binary64)',
+        'only 12-tone equal temperament scales (Tuning.et(12)); other tunings need log2 of the octave ratio',
+        'event values: numbers, Rest(number), strings, Scale, bool, None; tuple-valued (arrayed) keys, '
+        'function-valued keys, MIDI events, Pmono, variants, strum/lag/timing_offset are not modelled',
+        'Pbind value streams are finite lists or cycles (C13 covers the value patterns themselves); every '
+        'Pbind has at least one finite key; Pchain only with a Pbind of constants on the left',
+        'a Rest is never given for the key delta itself (Ppar / Pdur overwrite delta with a number)',
+        'node ids are compared up to renaming by first appearance; commands with equal times as a multiset',
+    ]
 
     def rule(self):
-        return ''
+        return ('1-2 SynthDefs with 0-8 generated controls (names from the event key space: freq amp gate pan '
+                'out foo bar detune sustain dur legato db; gate present in 60 %, keep_gate 15 %) added to '
+                'SynthDescLib; latency in {0, 1/8, 1/4, 1/2}; start time dyadic. 50 % single events with a '
+                'random subset of 30 keys (pitch chain freq/midinote/note/degree + 7 modifiers + scale, '
+                'amp/db/velocity, dur/stretch/legato/sustain/delta, group/add_action/out/pan/gate/send_gate/'
+                'has_gate, custom controls; instrument = a generated def, an unknown name or the default), 4 % '
+                'with a string where a number is needed; 50 % patterns: Pbind (1-6 events, keys as finite '
+                'lists / cycles / constants, 12 % Rest values), Ppar (1-3 children, nested), Pdur (dyadic '
+                'duration, tolerance default/0/dyadic), Pdelta, Pbind<>p, depth <= 3. Played from a routine in '
+                'NRT; the /s_new, /n_set, /n_free entries of the score and the time of the last wake-up are '
+                'compared with the Lean driver and with an independent oracle (each child keeps its own '
+                'timeline; notes = union of timelines; Pdur cuts the timeline). Non-trivial: >= 2 commands')
 
     def gen_case(self, rng, idx):
         g = Gen(rng)
@@ -651,7 +674,8 @@ class Check(common.Check):
                 final.append({'msgs': None, 'raw': r})
                 continue
             end = r[-1].split()
-            final.append({'msgs': [parse_model_line(x) for x in r[1:-1]], 'died': end[2] == '1'})
+            final.append({'msgs': [parse_model_line(x) for x in r[1:-1]], 'died': end[2] == '1',
+                          'end': float(F(end[1]))})
         return final
 
     @staticmethod
@@ -670,14 +694,20 @@ class Check(common.Check):
         a = canon_msgs(self.impl_msgs(impl_out))
         b = canon_msgs(model_out['msgs'])
         died_impl = impl_out['errors'] > 0 or bool(impl_out['build_error'])
-        if not same_msgs(a, b) or died_impl != model_out['died']:
-            return {'impl': a, 'model': b, 'impl_errors': impl_out['errors'],
+        end_ok = True
+        if not died_impl and impl_out.get('end') is not None:
+            # the last wake-up of the player is at the time its timetable ends, unless a later
+            # gate-off... (gate-offs are bundles, not wake-ups): compare directly
+            end_ok = close(float(impl_out['end']), model_out['end'])
+        if not same_msgs(a, b) or died_impl != model_out['died'] or not end_ok:
+            return {'impl': a, 'model': b, 'impl_end': impl_out.get('end'), 'model_end': model_out['end'],
+                    'impl_errors': impl_out['errors'],
                     'impl_build_error': impl_out['build_error'], 'model_died': model_out['died']}
         return None
 
     def oracle(self, case, out):
         try:
-            notes = oracle_notes(case)
+            notes, end = oracle_notes(case)
         except Raise:
             return None                   # the documented meaning does not cover the case
         if out['errors'] != 0 or out['build_error']:
@@ -706,6 +736,9 @@ class Check(common.Check):
                 return {'what': f'synth {g} is not one of the due notes', 'signature': 'note-mismatch:' + self.top(case),
                         'expected': repr(exp)[:800]}
             used[hit] = True
+        if out.get('end') is not None and not close(float(out['end']), float(end)):
+            return {'what': f'the pattern ends at {out["end"]}, its timeline ends at {float(end)}',
+                    'signature': 'end-time:' + self.top(case)}
         return None
 
     @staticmethod
